@@ -31,8 +31,9 @@ def main():
     res = {'mutdir': a.mutdir, 'props': a.props, 'worktree': wt}
     sh('git checkout -- . && git clean -fdq -e out -e out2', cwd=wt)
     env = dict(os.environ, PYTHONPATH=wt, PYTHONHASHSEED='0')
-    os.makedirs('/root/scratch/demo_run', exist_ok=True)
-    rc, out = sh('/venv/bin/python %s' % demo, cwd='/root/scratch/demo_run', env=env, timeout=900)
+    DEMO = '/root/scratch/demo_run' + os.environ.get('LANE', '')
+    os.makedirs(DEMO, exist_ok=True)
+    rc, out = sh('/venv/bin/python %s' % demo, cwd=DEMO, env=env, timeout=900)
     res['demo_clean_rc'] = rc
     rc, out = sh('git apply %s' % patch, cwd=wt)
     if rc != 0:
@@ -42,7 +43,7 @@ def main():
         if not a.skip_tests:
             rc, out = sh('/venv/bin/python -m pytest -q -p no:cacheprovider --timeout=900 -x 2>&1 | tail -3', cwd=wt, env=env)
             res['tests'] = out.strip().split('\n')[-1]
-        rc, out = sh('/venv/bin/python %s' % demo, cwd='/root/scratch/demo_run', env=env, timeout=900)
+        rc, out = sh('/venv/bin/python %s' % demo, cwd=DEMO, env=env, timeout=900)
         res['demo_mutant_rc'] = rc
         res['checks'] = {}
         for p in a.props:
